@@ -105,6 +105,64 @@ impl Domain for OrswotDomain {
                 };
                 format!("C {} R {}", fmt_pairs(c), fmt_pairs(d))
             },
+            "lwwlive" => {
+                let (c, _d) = match &self.regs[r(1)] {
+                    Set::N1(s) => OrSWotSet::<1>::default().diff(s),
+                    Set::N2(s) => OrSWotSet::<2>::default().diff(s),
+                };
+                format!("E {}", fmt_pairs(c))
+            },
+            "applydiff" => {
+                let (a, b, src, mode) = (r(1), r(2), r(3), p_u64(t[4]));
+                let (mut cs, mut rs) = match (&self.regs[a], &self.regs[b]) {
+                    (Set::N1(x), Set::N1(y)) => x.diff(y),
+                    (Set::N2(x), Set::N2(y)) => x.diff(y),
+                    _ => unreachable!(),
+                };
+                cs.sort_by_key(|p| (p.1, p.0));
+                rs.sort_by_key(|p| (p.1, p.0));
+                let mut items: Vec<(bool, u64, HLCTimestamp)> = Vec::new();
+                if mode == 0 {
+                    items.extend(rs.iter().map(|p| (true, p.0, p.1)));
+                    items.extend(cs.iter().map(|p| (false, p.0, p.1)));
+                } else if mode == 1 {
+                    items.extend(cs.iter().map(|p| (false, p.0, p.1)));
+                    items.extend(rs.iter().map(|p| (true, p.0, p.1)));
+                } else {
+                    let mut bits = mode / 2;
+                    let (mut i, mut j) = (0, 0);
+                    while i < rs.len() || j < cs.len() {
+                        let take_r = if i >= rs.len() {
+                            false
+                        } else if j >= cs.len() {
+                            true
+                        } else {
+                            let b = bits % 2 == 0;
+                            bits /= 2;
+                            b
+                        };
+                        if take_r {
+                            items.push((true, rs[i].0, rs[i].1));
+                            i += 1;
+                        } else {
+                            items.push((false, cs[j].0, cs[j].1));
+                            j += 1;
+                        }
+                    }
+                }
+                let mut cnt = 0;
+                for (is_del, k, stamp) in items.iter() {
+                    let res = if *is_del {
+                        with_set!(&mut self.regs[a], s => s.delete_with_source(src, *k, *stamp))
+                    } else {
+                        with_set!(&mut self.regs[a], s => s.insert_with_source(src, *k, *stamp))
+                    };
+                    if res {
+                        cnt += 1;
+                    }
+                }
+                format!("applied {}/{}", cnt, items.len())
+            },
             "merge" => {
                 let (a, b) = (r(1), r(2));
                 match &self.regs[b] {
@@ -144,6 +202,7 @@ impl Domain for OrswotDomain {
                 self.regs[r(1)] = self.fresh();
                 "ok".to_string()
             },
+            "hist" => "ok".to_string(),
             "cut" => {
                 // least stamp with node id <n> that is not refused as "before the last observed event",
                 // found by bisection with will_apply on a key the set does not hold.
